@@ -24,15 +24,24 @@
 //!   127.0.0.2:P (other address, same port) and 127.0.0.1:P' (same address, other port). The
 //!   harness reads every datagram the task emits with its own walker and builds answers at byte
 //!   level from the request (48-byte v4 / v5 headers written field by field).
-//! * Real-time nondeterminism is owned by a SENTINEL: after the answers of a poll the harness
-//!   sends a datagram shorter than 48 bytes of a rotating size from the server address; the task
-//!   (rightly) ignores it without calling the library, but logs its size. "Nothing happened" is
-//!   decided when the sentinel has been seen by the task (tracing subscriber of this thread),
-//!   never by a timeout; loopback delivery is in order, so everything sent before it has been
-//!   consumed (or dropped by the kernel: the task's socket is connected). The task never has
-//!   the timer and a datagram ready at the same time, so `select!`'s random branch order is
-//!   never exercised. A real-time dead-man (20 s without the expected event) turns a hang into a
-//!   `task-stuck` violation instead of a hung test.
+//! * The scripted server reacts to each poll with a SEQUENCE of datagrams ("atoms": valid answer,
+//!   wrong origin, the reflected request, KISS codes, datagrams from other peers, truncated
+//!   datagrams of 0/1/2/4/47 bytes, 5.5 s passing), in every order.
+//! * Real-time nondeterminism is owned by SENTINELS: at every synchronisation point (end of the
+//!   reaction, and before virtual time is advanced inside a reaction) the harness sends datagrams
+//!   of 8..40 bytes (rotating size) from the server address; the task (rightly) ignores them
+//!   without calling the library, but logs their size. "Nothing happened" is decided when the
+//!   last sentinel has been logged by the task (tracing subscriber of this thread), never by a
+//!   timeout; loopback delivery is in order, so everything sent before it has been consumed (or
+//!   dropped by the kernel: the task's socket is connected). The rig does not DEPEND on that log
+//!   line: one sentinel more than the number of foreign-peer datagrams is sent, and the count of
+//!   datagrams the task took ("accept packet") is accepted as proof as well (see `flush`); a task
+//!   that takes short datagrams without the log line is reported (`sentinel-unlogged`, cap +
+//!   exhaustive=false) and a short datagram that produces a measurement is a C08 violation. The
+//!   task never has the timer and a datagram ready at the same time, so `select!`'s random
+//!   branch order is never exercised. Real-time dead-men (20 s for a timer firing, 10 s for a
+//!   sentinel) turn a hang into `task-stuck` / a machinery note; after three expiries the
+//!   exploration stops (cap, exhaustive=false) — never a hung test.
 //! * One keeper time-stamping socket per process keeps kernel receive time stamping on
 //!   (found by group gq: it is enabled lazily and switched off with the last stamping socket).
 #![allow(dead_code)]
@@ -110,14 +119,21 @@ pub(super) struct EvLog {
     pub timer: AtomicU64,
     /// "accept packet": the task took a datagram (or an error) from its socket
     pub recv: AtomicU64,
-    /// "received packet is too small": number of such events, and the size of the last one
+    /// "received packet is too small" with a sentinel size (8..=40): number of such events and
+    /// the size of the last one
     pub small: AtomicU64,
     pub small_size: AtomicU64,
+    /// "received packet is too small" with any other size (the short datagrams of the alphabet)
+    pub small_other: AtomicU64,
     /// datagrams that came without a kernel time stamp (clock substituted)
     pub unstamped: AtomicU64,
     /// library / task warnings and debug lines by text (vacuity counters only, never judged)
     pub lines: Mutex<BTreeMap<String, u64>>,
 }
+
+/// Sentinel datagrams have 8..=40 bytes; the short datagrams of the alphabet have 0, 1, 2, 4, 47.
+pub(super) const SENTINEL_MIN: u64 = 8;
+pub(super) const SENTINEL_MAX: u64 = 40;
 
 struct Sub(Arc<EvLog>);
 
@@ -167,8 +183,13 @@ impl tracing::Subscriber for Sub {
                 log.recv.fetch_add(1, Ordering::SeqCst);
             }
             "received packet is too small" => {
-                log.small_size.store(f.actual.unwrap_or(u64::MAX), Ordering::SeqCst);
-                log.small.fetch_add(1, Ordering::SeqCst);
+                let n = f.actual.unwrap_or(u64::MAX);
+                if (SENTINEL_MIN..=SENTINEL_MAX).contains(&n) {
+                    log.small_size.store(n, Ordering::SeqCst);
+                    log.small.fetch_add(1, Ordering::SeqCst);
+                } else {
+                    log.small_other.fetch_add(1, Ordering::SeqCst);
+                }
             }
             "received a packet without a timestamp, substituting" => {
                 log.unstamped.fetch_add(1, Ordering::SeqCst);
@@ -329,12 +350,14 @@ pub(super) struct Cfg {
     pub min: i8,
     pub max: i8,
     pub ts: Ts,
+    /// poll exponent the (recording) controller desires
+    pub des: i8,
 }
 
 impl Cfg {
     pub(super) fn code(&self) -> String {
         format!(
-            "{};{}-{};{}",
+            "{};{}-{};{}{}",
             match self.ver {
                 Ver::V4 => "v4",
                 Ver::V5 => "v5",
@@ -346,12 +369,13 @@ impl Cfg {
                 Ts::Sw => "sw",
                 Ts::Kr => "kr",
                 Ts::Ka => "ka",
-            }
+            },
+            if self.des == self.min { String::new() } else { format!(";d{}", self.des) }
         )
     }
     pub(super) fn parse(s: &str) -> Option<Cfg> {
         let p: Vec<&str> = s.split(';').collect();
-        if p.len() != 3 {
+        if p.len() != 3 && p.len() != 4 {
             return None;
         }
         let ver = match p[0] {
@@ -367,21 +391,26 @@ impl Cfg {
             "ka" => Ts::Ka,
             _ => return None,
         };
-        Some(Cfg { ver, min: a.parse().ok()?, max: b.parse().ok()?, ts })
+        let min: i8 = a.parse().ok()?;
+        let des = match p.get(3) {
+            Some(d) => d.strip_prefix('d')?.parse().ok()?,
+            None => min,
+        };
+        Some(Cfg { ver, min, max: b.parse().ok()?, ts, des })
     }
 }
 
-/// What the scripted server does with one poll.
+/// One datagram (or the passing of time) in the scripted server's reaction to a poll. A reaction
+/// is a sequence of atoms; the empty sequence (`N` in traces) is "no answer".
 #[derive(Clone, Copy, Debug, PartialEq, Eq, Hash, PartialOrd, Ord)]
-pub(super) enum Sym {
-    /// no answer
-    N,
-    /// valid answer (stratum 2, server mode, identifier of this request, from the server address)
+pub(super) enum Atom {
+    /// valid answer (stratum 2, server mode, identifier of this request, from the server address);
+    /// a second `V` in the same poll re-sends the very same datagram (a duplicate)
     V,
-    /// the same valid answer delivered twice
-    W,
-    /// answer whose origin time stamp / client cookie is not the one of the request
+    /// answer from the server address whose origin time stamp / client cookie is not the request's
     O,
+    /// the request itself, reflected (client mode, origin field not the request's identifier)
+    X,
     /// KISS DENY (v5: stratum 0, poll 127)
     D,
     /// KISS RSTR (v4 only; NTPv5 has no such code)
@@ -394,64 +423,140 @@ pub(super) enum Sym {
     A,
     /// valid answer sent from the server's address but another port
     P,
-    /// valid answer that arrives 5.5 s (virtual) after the request: outside the poll window
-    L,
-    /// NTPv5 only: valid answer whose poll field asks for max+2
+    /// 5.5 s of virtual time pass: everything after it in this poll is outside the poll window
+    T,
+    /// NTPv5 only: valid answer whose poll field asks for max+2 / max+1 / 18 / 20
     Q,
+    J,
+    G,
+    H,
+    /// the first 0 / 1 / 2 / 4 / 47 bytes of a valid answer, from the server address
+    Z0,
+    Z1,
+    Z2,
+    Z4,
+    Z47,
 }
 
-impl Sym {
-    pub(super) const ALL: [Sym; 12] =
-        [Sym::N, Sym::V, Sym::W, Sym::O, Sym::D, Sym::S, Sym::R, Sym::U, Sym::A, Sym::P, Sym::L, Sym::Q];
+impl Atom {
+    pub(super) const ALL: [Atom; 19] = [
+        Atom::V,
+        Atom::O,
+        Atom::X,
+        Atom::D,
+        Atom::S,
+        Atom::R,
+        Atom::U,
+        Atom::A,
+        Atom::P,
+        Atom::T,
+        Atom::Q,
+        Atom::J,
+        Atom::G,
+        Atom::H,
+        Atom::Z0,
+        Atom::Z1,
+        Atom::Z2,
+        Atom::Z4,
+        Atom::Z47,
+    ];
     pub(super) fn ch(self) -> char {
         match self {
-            Sym::N => 'N',
-            Sym::V => 'V',
-            Sym::W => 'W',
-            Sym::O => 'O',
-            Sym::D => 'D',
-            Sym::S => 'S',
-            Sym::R => 'R',
-            Sym::U => 'U',
-            Sym::A => 'A',
-            Sym::P => 'P',
-            Sym::L => 'L',
-            Sym::Q => 'Q',
+            Atom::V => 'V',
+            Atom::O => 'O',
+            Atom::X => 'X',
+            Atom::D => 'D',
+            Atom::S => 'S',
+            Atom::R => 'R',
+            Atom::U => 'U',
+            Atom::A => 'A',
+            Atom::P => 'P',
+            Atom::T => 'T',
+            Atom::Q => 'Q',
+            Atom::J => 'J',
+            Atom::G => 'G',
+            Atom::H => 'H',
+            Atom::Z0 => '0',
+            Atom::Z1 => '1',
+            Atom::Z2 => '2',
+            Atom::Z4 => '4',
+            Atom::Z47 => '7',
         }
     }
-    pub(super) fn from_ch(c: char) -> Option<Sym> {
-        Sym::ALL.into_iter().find(|s| s.ch() == c)
+    pub(super) fn from_ch(c: char) -> Option<Atom> {
+        Atom::ALL.into_iter().find(|s| s.ch() == c)
     }
-    /// Does the symbol exist for this kind of source?
+    /// Does the atom exist for this kind of source?
     pub(super) fn applies(self, ver: Ver) -> bool {
         match self {
-            Sym::S => ver == Ver::V4,
-            Sym::Q => ver == Ver::V5,
+            Atom::S => ver == Ver::V4,
+            Atom::Q | Atom::J | Atom::G | Atom::H => ver == Ver::V5,
             _ => true,
         }
     }
-    /// Statement, daemon level: is this a usable answer to the pending request?
-    pub(super) fn usable(self) -> bool {
-        matches!(self, Sym::V | Sym::W | Sym::Q)
+    /// A full-size, well-formed answer with the identifier of the request, from the server address.
+    pub(super) fn valid_shape(self) -> bool {
+        matches!(self, Atom::V | Atom::Q | Atom::J | Atom::G | Atom::H)
     }
+    pub(super) fn short_len(self) -> Option<usize> {
+        match self {
+            Atom::Z0 => Some(0),
+            Atom::Z1 => Some(1),
+            Atom::Z2 => Some(2),
+            Atom::Z4 => Some(4),
+            Atom::Z47 => Some(47),
+            _ => None,
+        }
+    }
+    /// poll exponent a `Q`-like answer asks for
+    pub(super) fn asks(self, max: i8) -> Option<i8> {
+        match self {
+            Atom::Q => Some(max.saturating_add(2)),
+            Atom::J => Some(max.saturating_add(1)),
+            Atom::G => Some(18),
+            Atom::H => Some(20),
+            _ => None,
+        }
+    }
+}
+
+pub(super) fn reaction_code(r: &[Atom]) -> String {
+    if r.is_empty() { "N".to_string() } else { r.iter().map(|a| a.ch()).collect() }
+}
+
+/// All atoms by their trace letters, e.g. `atoms("VOD2")`.
+pub(super) fn atoms(s: &str) -> Vec<Atom> {
+    s.chars().map(|c| Atom::from_ch(c).expect("atom letter")).collect()
 }
 
 #[derive(Clone, Debug, PartialEq, Eq, Hash)]
 pub(super) struct Case {
     pub cfg: Cfg,
-    pub script: Vec<Sym>,
+    /// one reaction (sequence of atoms) per poll
+    pub script: Vec<Vec<Atom>>,
 }
 
 impl Case {
+    /// `cfg;poll.poll.poll`, each poll a word of atom letters, `N` = no answer
     pub(super) fn trace(&self) -> String {
-        format!("{};{}", self.cfg.code(), self.script.iter().map(|s| s.ch()).collect::<String>())
+        format!("{};{}", self.cfg.code(), self.script.iter().map(|r| reaction_code(r)).collect::<Vec<_>>().join("."))
     }
     pub(super) fn parse(s: &str) -> Option<Case> {
         let s = s.trim();
         let (c, script) = s.rsplit_once(';')?;
+        // the desire part `dN` is the last part of the configuration, not a script
+        let (c, script) = if script.starts_with('d') && script[1..].parse::<i8>().is_ok() { (s, "") } else { (c, script) };
         let cfg = Cfg::parse(c)?;
-        let script: Option<Vec<Sym>> = script.chars().map(Sym::from_ch).collect();
-        Some(Case { cfg, script: script? })
+        let mut out = Vec::new();
+        for poll in script.split('.') {
+            if poll.is_empty() || poll == "N" {
+                out.push(Vec::new());
+                continue;
+            }
+            let r: Option<Vec<Atom>> = poll.chars().map(Atom::from_ch).collect();
+            out.push(r?);
+        }
+        Some(Case { cfg, script: out })
     }
 }
 
@@ -476,6 +581,8 @@ pub(super) struct Req {
     pub marker: bool,
     /// index of the last clock reading taken before the datagram was seen (= the send time stamp)
     pub clock_k: u32,
+    /// the datagram as it left the task
+    pub bytes: Vec<u8>,
 }
 
 pub(super) fn parse_req(bytes: &[u8], from: SocketAddr, clock_k: u32) -> Option<Req> {
@@ -498,6 +605,7 @@ pub(super) fn parse_req(bytes: &[u8], from: SocketAddr, clock_k: u32) -> Option<
         id8,
         marker: version == 4 && bytes[16..24] == UPGRADE_MARKER,
         clock_k,
+        bytes: bytes.to_vec(),
     })
 }
 
@@ -612,12 +720,17 @@ impl MsgKind {
 
 #[derive(Clone, Debug)]
 pub(super) struct Sent {
-    pub kind: Kind,
+    pub atom: Atom,
+    /// serial of the answer's receive / transmit time stamps (0 for `T`, `X`)
     pub serial: u32,
-    /// 0 = server address, 1 = other address, 2 = other port
+    /// 0 = server address, 1 = other address, 2 = other port, 9 = nothing sent (`T`)
     pub via: u8,
-    /// virtual seconds (x10) advanced before it was sent
+    /// sent after 5.5 s of virtual time had passed in this poll
     pub late: bool,
+    pub len: usize,
+    /// datagrams (answers and sentinels) the server address had sent to the task in this poll
+    /// before this one: each of them costs the task one clock reading in Software mode
+    pub rx_before: u32,
 }
 
 #[derive(Clone, Debug, Default)]
@@ -645,7 +758,14 @@ pub(super) struct StepObs {
     pub recv_events: u64,
     pub unstamped: u64,
     pub sent: Vec<Sent>,
+    /// phase 1: the timer fired and neither a datagram nor a message nor the end of the task followed
     pub stuck: Option<String>,
+    /// phase 2: the rig lost track of its sentinel (machinery, not a verdict)
+    pub sentinel_lost: Option<String>,
+    /// the sentinel was consumed (datagram count) without the "too small" log line
+    pub sentinel_unlogged: bool,
+    /// "too small" log lines for the short datagrams of the alphabet
+    pub short_logged: u64,
     /// real time around the step (seconds since the unix epoch), for kernel time stamps
     pub real_before: f64,
     pub real_after: f64,
@@ -681,11 +801,12 @@ impl Io {
         self.serial += 1;
         self.serial
     }
-    /// Send the next sentinel to the task's socket; returns (size, "too small" events so far).
+    /// Send the next sentinel to the task's socket; returns (size, sentinel log lines so far).
     pub(super) fn send_sentinel(&mut self, to: SocketAddr) -> Result<(u64, u64), String> {
-        self.sentinel = self.sentinel % 40 + 1;
+        self.sentinel = if self.sentinel < SENTINEL_MIN || self.sentinel >= SENTINEL_MAX { SENTINEL_MIN } else { self.sentinel + 1 };
         let size = self.sentinel;
         let before = self.log.small.load(Ordering::SeqCst);
+        // first byte: LI 1, VN 3, mode 6 - never a server-mode answer, whatever follows it
         self.server.send_to(&vec![0x5E; size as usize], to).map_err(|e| format!("send sentinel: {e}"))?;
         Ok((size, before))
     }
@@ -841,8 +962,74 @@ pub(super) fn backoff(rounds: u32) {
     }
 }
 
+/// What has been sent to the task's socket since the last synchronisation point.
+struct Pend {
+    /// "accept packet" events at the last synchronisation point
+    recv0: u64,
+    from_server: u64,
+    foreign: u64,
+}
+
+/// Synchronisation point: sentinels — short datagrams from the server address which the task
+/// must ignore but logs. One more than the number of datagrams sent from foreign peers since the
+/// last point, so that the datagram COUNT alone proves that everything before the first sentinel
+/// has been consumed even if the task (wrongly) takes foreign datagrams or does not log short
+/// ones. Done when
+///  (i)   the log line of the LAST sentinel appeared: everything has been consumed; or
+///  (ii)  as many datagrams were taken as were sent in total; or
+///  (iii) as many datagrams were taken as the server address sent (answers + sentinels) while
+///        not a single sentinel log line has appeared — at least one sentinel is among them, so
+///        this task evidently does not log short datagrams and (i) will never come.
+/// Returns the number of sentinels sent (each costs the task a clock reading in Software mode).
+async fn flush(io: &mut Io, live: &mut Live, o: &mut StepObs, to: SocketAddr, pend: &mut Pend, dead: Duration) -> u32 {
+    let small0 = io.log.small.load(Ordering::SeqCst);
+    let mut last = (0u64, u64::MAX);
+    let mut n_sent = 0u64;
+    for _ in 0..=pend.foreign {
+        match io.send_sentinel(to) {
+            Ok(x) => {
+                last = x;
+                n_sent += 1;
+            }
+            Err(e) => o.sentinel_lost = Some(e),
+        }
+    }
+    let t0 = std::time::Instant::now();
+    let mut rounds = 0u32;
+    let wait = Duration::from_secs(10).min(dead);
+    while o.sentinel_lost.is_none() {
+        round(live).await;
+        let taken = io.log.recv.load(Ordering::SeqCst) - pend.recv0;
+        if io.sentinel_seen(last.0, last.1) || taken >= pend.from_server + pend.foreign + n_sent {
+            break;
+        }
+        if taken >= pend.from_server + n_sent && io.log.small.load(Ordering::SeqCst) == small0 {
+            break;
+        }
+        if live.fut.is_none() {
+            break;
+        }
+        rounds += 1;
+        backoff(rounds);
+        if t0.elapsed() > wait {
+            o.sentinel_lost = Some(format!(
+                "sentinel of {} bytes not consumed within {:?}: {} datagrams taken of {} + {} foreign + {} sentinels",
+                last.0, wait, taken, pend.from_server, pend.foreign, n_sent
+            ));
+            break;
+        }
+    }
+    if io.log.small.load(Ordering::SeqCst) == small0 && live.fut.is_some() && o.sentinel_lost.is_none() {
+        o.sentinel_unlogged = true;
+    }
+    pend.recv0 = io.log.recv.load(Ordering::SeqCst);
+    pend.from_server = 0;
+    pend.foreign = 0;
+    n_sent as u32
+}
+
 /// Fire the poll timer and play `sym` against whatever the task sends.
-async fn step(io: &mut Io, live: &mut Live, sym: Sym, max: i8, dead: Duration) -> StepObs {
+async fn step(io: &mut Io, live: &mut Live, reaction: &[Atom], max: i8, dead: Duration) -> StepObs {
     let mut o = StepObs::default();
     let m0 = marks(io, live);
     o.clock_first = m0.clock;
@@ -890,40 +1077,61 @@ async fn step(io: &mut Io, live: &mut Live, sym: Sym, max: i8, dead: Duration) -
         }
     }
 
-    // phase 2: the scripted server's reaction, then the sentinel
+    // phase 2: the scripted server's reaction, then the sentinel(s)
+    let mut passed = Duration::ZERO;
     if let Some(req) = o.req.clone() {
         live.task_addr = Some(req.from);
         live.last_req = Some(req.clone());
-        let mut plan: Vec<(Kind, u8)> = Vec::new();
-        match sym {
-            Sym::N => {}
-            Sym::V | Sym::L => plan.push((Kind::Valid, 0)),
-            Sym::W => {
-                plan.push((Kind::Valid, 0));
-                plan.push((Kind::Valid, 0));
-            }
-            Sym::O => plan.push((Kind::WrongOrigin, 0)),
-            Sym::D => plan.push((Kind::Deny, 0)),
-            Sym::S => plan.push((Kind::Rstr, 0)),
-            Sym::R => plan.push((Kind::Rate, 0)),
-            Sym::U => plan.push((Kind::Unknown, 0)),
-            Sym::A => plan.push((Kind::Valid, 1)),
-            Sym::P => plan.push((Kind::Valid, 2)),
-            Sym::Q => plan.push((Kind::ValidAsking(max.saturating_add(2)), 0)),
-        }
+        let short0 = io.log.small_other.load(Ordering::SeqCst);
         let mut late = false;
-        if sym == Sym::L {
-            tokio::time::advance(Duration::from_millis(5500)).await;
-            late = true;
-        }
-        let mut bytes: Option<Vec<u8>> = None;
-        for (kind, via) in plan {
-            // `W` delivers the very same datagram twice
-            let b = match (&bytes, sym) {
-                (Some(b), Sym::W) => b.clone(),
+        let mut valid: Option<(Vec<u8>, u32)> = None;
+        let mut pend = Pend { recv0: io.log.recv.load(Ordering::SeqCst), from_server: 0, foreign: 0 };
+        let mut rx_total = 0u32;
+        for &atom in reaction {
+            if atom == Atom::T {
+                // time passes AFTER everything sent so far has been consumed
+                if pend.from_server + pend.foreign > 0 {
+                    rx_total += flush(io, live, &mut o, req.from, &mut pend, dead).await;
+                }
+                tokio::time::advance(Duration::from_millis(5500)).await;
+                passed += Duration::from_millis(5500);
+                late = true;
+                o.sent.push(Sent { atom, serial: 0, via: 9, late, len: 0, rx_before: rx_total });
+                continue;
+            }
+            let via = match atom {
+                Atom::A => 1,
+                Atom::P => 2,
+                _ => 0,
+            };
+            let (bytes, serial) = match atom {
+                // a repeated `V` is the very same datagram again
+                Atom::V => match &valid {
+                    Some((b, s)) => (b.clone(), *s),
+                    None => {
+                        let s = io.next_serial();
+                        let b = build_answer(&req, Kind::Valid, s);
+                        valid = Some((b.clone(), s));
+                        (b, s)
+                    }
+                },
+                Atom::X => (req.bytes.clone(), 0),
                 _ => {
-                    let serial = io.next_serial();
-                    build_answer(&req, kind, serial)
+                    let s = io.next_serial();
+                    let kind = match atom {
+                        Atom::O => Kind::WrongOrigin,
+                        Atom::D => Kind::Deny,
+                        Atom::S => Kind::Rstr,
+                        Atom::R => Kind::Rate,
+                        Atom::U => Kind::Unknown,
+                        Atom::Q | Atom::J | Atom::G | Atom::H => Kind::ValidAsking(atom.asks(max).unwrap_or(max)),
+                        _ => Kind::Valid,
+                    };
+                    let mut b = build_answer(&req, kind, s);
+                    if let Some(n) = atom.short_len() {
+                        b.truncate(n);
+                    }
+                    (b, s)
                 }
             };
             let sock = match via {
@@ -931,37 +1139,19 @@ async fn step(io: &mut Io, live: &mut Live, sym: Sym, max: i8, dead: Duration) -
                 1 => &io.alt_ip,
                 _ => &io.alt_port,
             };
-            if let Err(e) = sock.send_to(&b, req.from) {
-                o.stuck = Some(format!("send answer: {e}"));
+            if let Err(e) = sock.send_to(&bytes, req.from) {
+                o.sentinel_lost = Some(format!("send answer: {e}"));
             }
-            o.sent.push(Sent { kind, serial: io.serial, via, late });
-            bytes = Some(b);
-        }
-        // sentinel: a short datagram of a size not used by the previous sentinel
-        let (size, seen_before) = match io.send_sentinel(req.from) {
-            Ok(x) => x,
-            Err(e) => {
-                o.stuck = Some(e);
-                (0, u64::MAX)
-            }
-        };
-        let t0 = std::time::Instant::now();
-        let mut rounds = 0u32;
-        loop {
-            round(live).await;
-            if io.sentinel_seen(size, seen_before) || o.stuck.is_some() {
-                break;
-            }
-            if live.fut.is_none() {
-                break;
-            }
-            rounds += 1;
-            backoff(rounds);
-            if t0.elapsed() > dead {
-                o.stuck = Some(format!("sentinel of {size} bytes never consumed by the task"));
-                break;
+            o.sent.push(Sent { atom, serial, via, late, len: bytes.len(), rx_before: rx_total });
+            if via == 0 {
+                pend.from_server += 1;
+                rx_total += 1;
+            } else {
+                pend.foreign += 1;
             }
         }
+        flush(io, live, &mut o, req.from, &mut pend, dead).await;
+        o.short_logged = io.log.small_other.load(Ordering::SeqCst) - short0;
     }
 
     // collect
@@ -1000,11 +1190,7 @@ async fn step(io: &mut Io, live: &mut Live, sym: Sym, max: i8, dead: Duration) -
     }
     // the task asked for this much time until its next poll
     if let Some(d) = o.resets.last() {
-        live.pending_advance = d.saturating_sub(if sym == Sym::L && o.req.is_some() {
-            Duration::from_millis(5500)
-        } else {
-            Duration::ZERO
-        });
+        live.pending_advance = d.saturating_sub(passed);
     }
     o.real_after = unix_now();
     o
@@ -1046,7 +1232,7 @@ async fn drive(io: &mut Io, case: &Case) -> CaseObs {
         io.server_addr,
         source_config,
         pv,
-        RecCtl { rec: rec.clone(), desired: limits.min },
+        RecCtl { rec: rec.clone(), desired: PollInterval::from_byte(cfg.des as u8) },
         None,
         index,
     );
@@ -1088,9 +1274,10 @@ async fn drive(io: &mut Io, case: &Case) -> CaseObs {
     let dead = deadman();
     let total = case.script.len() + TAIL;
     for i in 0..total {
-        let sym = case.script.get(i).copied().unwrap_or(Sym::N);
-        let o = step(io, &mut live, sym, cfg.max, dead).await;
-        let stop = o.finished || !o.msgs.is_empty() || o.stuck.is_some() || o.req.is_none();
+        let none: Vec<Atom> = Vec::new();
+        let reaction = case.script.get(i).unwrap_or(&none);
+        let o = step(io, &mut live, reaction, cfg.max, dead).await;
+        let stop = o.finished || !o.msgs.is_empty() || o.stuck.is_some() || o.sentinel_lost.is_some() || o.req.is_none();
         out.steps.push(o);
         if stop {
             break;
@@ -1098,7 +1285,7 @@ async fn drive(io: &mut Io, case: &Case) -> CaseObs {
     }
     // epilogue: after the report to the system task nothing may leave the task any more
     for _ in 0..2 {
-        let o = step(io, &mut live, Sym::N, cfg.max, Duration::from_secs(3).min(dead)).await;
+        let o = step(io, &mut live, &[], cfg.max, Duration::from_secs(3).min(dead)).await;
         out.epilogue.push(o);
         if live.fut.is_none() {
             // a finished task cannot do anything; one probe is proof enough
@@ -1117,7 +1304,7 @@ async fn drive(io: &mut Io, case: &Case) -> CaseObs {
 
 #[derive(Clone, Debug)]
 pub(super) struct Finding {
-    /// "C08" | "C09" | "C10" | "C11"
+    /// "C08" | "C09" | "C10" | "C11", or "*": every module reports it under its own id
     pub prop: &'static str,
     pub class: String,
     pub what: String,
@@ -1132,11 +1319,23 @@ pub(super) struct Verdict {
     pub states: Vec<u64>,
     pub transitions: u64,
     pub machinery: Vec<String>,
+    /// a dead-man expired in this case
+    pub stuck: bool,
 }
 
 impl Verdict {
     fn find(&mut self, prop: &'static str, class: &str, what: String) {
         self.findings.push(Finding { prop, class: format!("{prop}:task-{class}"), what });
+    }
+    /// the class of a finding as module `prop` reports it
+    pub(super) fn class_for(f: &Finding, prop: &str) -> Option<String> {
+        if f.prop == prop {
+            Some(f.class.clone())
+        } else if f.prop == "*" {
+            Some(f.class.replacen('*', prop, 1))
+        } else {
+            None
+        }
     }
     fn tag(&mut self, t: &str) {
         *self.tags.entry(t.to_string()).or_insert(0) += 1;
@@ -1179,21 +1378,36 @@ pub(super) fn judge(case: &Case, obs: &CaseObs) -> Verdict {
     let mut deny = false;
     let mut floor: i8 = cfg.min;
     let mut rate_seen = false;
+    // number of valid RATE answers so far, counted from the minimum ("each RATE answer lengthens
+    // the interval by at least one step until the configured maximum")
+    let mut steps: i8 = cfg.min;
     let mut srv_req: i8 = i8::MIN;
     let mut ended = false;
 
     for (i, o) in obs.steps.iter().enumerate() {
-        let sym = case.script.get(i).copied().unwrap_or(Sym::N);
+        let none: Vec<Atom> = Vec::new();
+        let reaction = case.script.get(i).unwrap_or(&none);
         v.transitions += 1 + o.sent.len() as u64;
-        v.states.push(common::hash_of(&(polls.min(3), ever, since.min(8), deny, floor, srv_req)));
-        let at = format!("poll #{} ({})", i + 1, sym.ch());
+        v.states.push(common::hash_of(&(polls.min(3), ever, since.min(8), deny, floor, srv_req, steps)));
+        let at = format!("poll #{} ({})", i + 1, reaction_code(reaction));
         if let Some(p) = &o.panicked {
             v.find("C11", "panicked", format!("{at}: task panicked: {p}"));
             return v;
         }
         if let Some(s) = &o.stuck {
-            v.find("C11", "stuck", format!("{at}: {s}"));
+            v.find("*", "stuck", format!("{at}: {s}"));
+            v.stuck = true;
             return v;
+        }
+        if let Some(s) = &o.sentinel_lost {
+            // the rig lost its step delimiter: nothing after this point can be judged
+            v.machinery.push(format!("{at}: {s}"));
+            v.stuck = true;
+            return v;
+        }
+        if o.sentinel_unlogged {
+            v.tag("machinery.sentinel-consumed-without-log-line");
+            v.machinery.push(format!("{at}: a short datagram (sentinel) was taken by the task without the 'too small' log line"));
         }
         if o.extra_datagrams > 0 || o.odd_datagrams > 0 {
             v.find(
@@ -1374,47 +1588,108 @@ pub(super) fn judge(case: &Case, obs: &CaseObs) -> Verdict {
             _ => "request.v4",
         });
 
-        // ---- the answer of this poll
-        let usable = sym.usable();
-        match sym {
-            Sym::V | Sym::W | Sym::Q => {
-                ever = true;
-                since = 0;
-                deny = false;
-                if sym == Sym::Q {
-                    srv_req = srv_req.max(cfg.max.saturating_add(2));
+        // ---- the reaction of the scripted server to this poll, datagram by datagram
+        let mut pending = true; // the request has not yet yielded a measurement
+        let mut late = false;
+        let mut want_calls = 0usize;
+        let mut accepted: Option<usize> = None; // index into o.sent
+        let mut before_accepted_from_server = 0u32; // datagrams the task received before it
+        let mut full_from_server = 0u64;
+        for (j, snt) in o.sent.iter().enumerate() {
+            let a = snt.atom;
+            v.tag(&format!("answer.{}", a.ch()));
+            let answers_pending = pending && !late && snt.via == 0;
+            match a {
+                Atom::T => late = true,
+                Atom::V | Atom::Q | Atom::J | Atom::G | Atom::H => {
+                    if answers_pending {
+                        want_calls += 2;
+                        accepted = Some(j);
+                        before_accepted_from_server = snt.rx_before;
+                        pending = false;
+                        ever = true;
+                        since = 0;
+                        deny = false;
+                        if let Some(x) = a.asks(cfg.max) {
+                            if req.version == 5 {
+                                srv_req = srv_req.max(x);
+                            }
+                        }
+                    } else {
+                        v.tag(if late { "ignored.late-valid" } else { "ignored.duplicate-valid" });
+                    }
+                }
+                Atom::D | Atom::S => {
+                    if answers_pending {
+                        deny = true;
+                        v.tag("kiss.deny-or-rstr-to-plain-source");
+                    } else {
+                        v.tag("ignored.kiss-not-answering-a-pending-request");
+                    }
+                }
+                Atom::R => {
+                    if answers_pending {
+                        rate_seen = true;
+                        steps = steps.saturating_add(1).min(cfg.max);
+                        floor = floor.max(p).max(steps);
+                        if p > cfg.des {
+                            // the interval just used was the server-imposed one, not the source's own
+                            floor = floor.max(p.saturating_add(1).min(cfg.max));
+                        }
+                    } else {
+                        v.tag("ignored.kiss-not-answering-a-pending-request");
+                    }
+                }
+                Atom::O | Atom::X | Atom::U | Atom::A | Atom::P | Atom::Z0 | Atom::Z1 | Atom::Z2 | Atom::Z4 | Atom::Z47 => {
+                    v.tag(&format!("ignored.{}", a.ch()));
                 }
             }
-            Sym::D | Sym::S => deny = true,
-            Sym::R => {
-                rate_seen = true;
-                floor = floor.max(p).max((p.saturating_add(1)).min(cfg.max));
+            if snt.via == 0 && snt.len >= 48 {
+                full_from_server += 1;
             }
-            Sym::N | Sym::O | Sym::U | Sym::A | Sym::P | Sym::L => {}
         }
-        v.tag(&format!("answer.{}", sym.ch()));
+        if reaction.is_empty() {
+            v.tag("answer.none");
+        }
+        if o.sent.len() >= 2 {
+            v.tag("reaction.two-or-more-datagrams");
+        }
         // ---- C08: measurements
-        let want_calls = if usable { 2 } else { 0 };
         if o.meas.len() != want_calls {
-            let class = match (sym, o.meas.len()) {
-                (Sym::W, n) if n > 2 => "duplicate-measured",
-                (Sym::O, _) => "wrong-origin-measured",
-                (Sym::A, _) | (Sym::P, _) => "foreign-address-measured",
-                (Sym::L, _) => "late-answer-measured",
-                (Sym::D | Sym::S | Sym::R | Sym::U, _) => "kiss-measured",
-                (Sym::N, _) => "measurement-without-answer",
-                _ => "usable-answer-not-measured",
+            let has = |f: &dyn Fn(Atom) -> bool| reaction.iter().any(|a| f(*a));
+            let class = if o.meas.len() < want_calls {
+                "usable-answer-not-measured"
+            } else if has(&|a| a.short_len().is_some()) {
+                "short-datagram-used"
+            } else if has(&|a| matches!(a, Atom::A | Atom::P)) {
+                "foreign-address-measured"
+            } else if has(&|a| a == Atom::T) {
+                "late-answer-measured"
+            } else if has(&|a| matches!(a, Atom::O | Atom::X)) {
+                "wrong-origin-measured"
+            } else if has(&|a| matches!(a, Atom::D | Atom::S | Atom::R | Atom::U)) {
+                "kiss-measured"
+            } else if reaction.is_empty() {
+                "measurement-without-answer"
+            } else {
+                "duplicate-measured"
             };
             v.find(
                 "C08",
                 class,
                 format!("{at}: {} measurement calls reached the controller, expected {want_calls}", o.meas.len()),
             );
-        } else if usable {
+            if o.meas.len() < want_calls {
+                // the same defect seen from C11: a source that answers usably is treated as silent
+                v.find("C11", "usable-answer-not-counted", format!("{at}: a usable answer did not reach the source"));
+            }
+        } else if let Some(j) = accepted {
             v.tag("measurement.pair-delivered");
-            let sent = o.sent.first();
+            if j > 0 {
+                v.tag("measurement.after-other-datagrams-in-the-same-poll");
+            }
             let (out, inc) = (&o.meas[0], &o.meas[1]);
-            let serial = sent.map(|s| s.serial).unwrap_or(0);
+            let serial = o.sent[j].serial;
             let want_recv = NtpTimestamp::from_seconds_nanos_since_ntp_era(RECV_BASE + serial, 0);
             let want_xmit = NtpTimestamp::from_seconds_nanos_since_ntp_era(XMIT_BASE + serial, 0);
             let mut bad = Vec::new();
@@ -1447,7 +1722,9 @@ pub(super) fn judge(case: &Case, obs: &CaseObs) -> Verdict {
             }
             match cfg.ts {
                 Ts::Sw => {
-                    if inc.receiver_ts != SeqClock::reading(req.clock_k.wrapping_add(1)) {
+                    // one clock reading per datagram the task received before this one
+                    let k = req.clock_k.wrapping_add(1).wrapping_add(before_accepted_from_server);
+                    if inc.receiver_ts != SeqClock::reading(k) {
                         bad.push("receive time stamp is not the clock reading taken when this answer arrived".to_string());
                     }
                 }
@@ -1460,8 +1737,11 @@ pub(super) fn judge(case: &Case, obs: &CaseObs) -> Verdict {
             if !bad.is_empty() {
                 v.find("C08", "measurement-not-of-this-exchange", format!("{at}: {}", bad.join("; ")));
             }
-        } else {
-            v.tag(&format!("ignored.{}", sym.ch()));
+        }
+        // datagrams shorter than 48 bytes must not reach the library at all (one published
+        // snapshot per timer and per full-size datagram from the server address)
+        if !o.finished && o.observes > 1 + full_from_server {
+            v.tag("machinery.more-snapshots-than-full-size-datagrams");
         }
         // ---- C11 / C08 / C10: published state
         match &o.snap {
@@ -1470,7 +1750,7 @@ pub(super) fn judge(case: &Case, obs: &CaseObs) -> Verdict {
                 if ever {
                     let want = since.min(8);
                     if *missed != want {
-                        let prop = if matches!(sym, Sym::W | Sym::O | Sym::A | Sym::P | Sym::L) { "C08" } else { "C11" };
+                        let prop = if o.sent.len() > usize::from(accepted.is_some()) { "C08" } else { "C11" };
                         v.find(
                             prop,
                             "missed-polls",
@@ -1500,10 +1780,6 @@ pub(super) fn judge(case: &Case, obs: &CaseObs) -> Verdict {
         }
         if o.snap_foreign_entries > 0 {
             v.find("C11", "snapshot-foreign-entry", format!("{at}: {} entries under other ids", o.snap_foreign_entries));
-        }
-        // ---- C09 at daemon level: a KISS never ends the task by itself
-        if matches!(sym, Sym::D | Sym::S) {
-            v.tag("kiss.deny-or-rstr-to-plain-source");
         }
     }
     if !ended && v.findings.is_empty() {
@@ -1555,6 +1831,12 @@ pub(super) fn obs_text(case: &Case, obs: &CaseObs) -> String {
         if let Some(st) = &o.stuck {
             s.push_str(&format!(" STUCK({st})"));
         }
+        if o.sentinel_lost.is_some() {
+            s.push_str(" SENTINEL-LOST");
+        }
+        if o.sentinel_unlogged {
+            s.push_str(" sentinel-unlogged");
+        }
         if let Some(p) = &o.panicked {
             s.push_str(&format!(" PANIC({p})"));
         }
@@ -1565,8 +1847,8 @@ pub(super) fn obs_text(case: &Case, obs: &CaseObs) -> String {
         if i > 0 {
             s.push_str(" | ");
         }
-        let sym = case.script.get(i).copied().unwrap_or(Sym::N);
-        s.push(sym.ch());
+        let none: Vec<Atom> = Vec::new();
+        s.push_str(&reaction_code(case.script.get(i).unwrap_or(&none)));
         s.push(':');
         one(o, &mut s);
     }
@@ -1583,22 +1865,36 @@ pub(super) fn obs_text(case: &Case, obs: &CaseObs) -> String {
 // enumeration driver shared by the four modules
 // =======================================================================================
 
-/// All words of exactly `len` symbols over `alphabet` (shorter scripts are prefixes: every
-/// script is followed by silent polls anyway).
-pub(super) fn cases_for(cfgs: &[Cfg], alphabet: &[Sym], len: usize) -> Vec<(Cfg, Vec<Sym>, u64)> {
-    cfgs.iter()
-        .map(|c| {
-            let a: Vec<Sym> = alphabet.iter().copied().filter(|s| s.applies(c.ver)).collect();
-            let n = common::pow(a.len(), len);
-            (*c, a, n)
-        })
-        .collect()
+/// All reactions (sequences of atoms) of length 0..=k over `atoms`, shortest first.
+pub(super) fn reactions(atoms: &[Atom], k: usize) -> Vec<Vec<Atom>> {
+    let mut out: Vec<Vec<Atom>> = vec![Vec::new()];
+    let mut level: Vec<Vec<Atom>> = vec![Vec::new()];
+    for _ in 0..k {
+        let mut next = Vec::new();
+        for r in &level {
+            for a in atoms {
+                let mut n = r.clone();
+                n.push(*a);
+                next.push(n);
+            }
+        }
+        out.extend(next.iter().cloned());
+        level = next;
+    }
+    out
 }
 
+/// Every script of exactly `polls` reactions, each reaction any sequence of at most `per_poll`
+/// atoms (in every order). Shorter scripts are prefixes: silence follows every script anyway.
 pub(super) struct Plan {
     pub cfg: Cfg,
-    pub alphabet: Vec<Sym>,
-    pub len: usize,
+    pub atoms: Vec<Atom>,
+    pub per_poll: usize,
+    pub polls: usize,
+}
+
+pub(super) fn plan(cfg: Cfg, letters: &str, per_poll: usize, polls: usize) -> Plan {
+    Plan { cfg, atoms: atoms(letters).into_iter().filter(|a| a.applies(cfg.ver)).collect(), per_poll, polls }
 }
 
 /// Run every script of every plan against a fresh real task, judge it, and report the findings
@@ -1606,16 +1902,21 @@ pub(super) struct Plan {
 /// their own modules report them).
 pub(super) fn explore(ctx: &Ctx, prop: &'static str, plans: &[Plan]) {
     let mut offsets = Vec::new();
+    let mut reacts: Vec<Vec<Vec<Atom>>> = Vec::new();
     let mut total = 0u64;
     for p in plans {
         offsets.push(total);
-        total += common::pow(p.alphabet.len(), p.len);
+        let r = reactions(&p.atoms, p.per_poll);
+        total += common::pow(r.len(), p.polls);
+        reacts.push(r);
     }
     ctx.set("cases_planned", total);
     let tally: Mutex<BTreeMap<String, u64>> = Mutex::new(BTreeMap::new());
     let states: Mutex<std::collections::HashSet<u64>> = Mutex::new(Default::default());
     let behaviours: Mutex<std::collections::HashSet<u64>> = Mutex::new(Default::default());
     let failed_workers = AtomicU64::new(0);
+    // dead-man expiries: after three the exploration stops (reported, never a hang)
+    let stuck = AtomicU64::new(0);
     common::par_for_with(
         total,
         8,
@@ -1633,12 +1934,19 @@ pub(super) fn explore(ctx: &Ctx, prop: &'static str, plans: &[Plan]) {
                 ctx.inc("cases_not_run");
                 return;
             };
+            if stuck.load(Ordering::SeqCst) >= 3 {
+                ctx.inc("cases_not_run");
+                return;
+            }
             let pi = offsets.partition_point(|o| *o <= idx) - 1;
             let plan = &plans[pi];
-            let word = common::word_of(idx - offsets[pi], plan.alphabet.len(), plan.len);
-            let case = Case { cfg: plan.cfg, script: word.iter().map(|i| plan.alphabet[*i]).collect() };
+            let word = common::word_of(idx - offsets[pi], reacts[pi].len(), plan.polls);
+            let case = Case { cfg: plan.cfg, script: word.iter().map(|i| reacts[pi][*i].clone()).collect() };
             let obs = w.run(&case);
             let verdict = judge(&case, &obs);
+            if verdict.stuck && stuck.fetch_add(1, Ordering::SeqCst) == 2 {
+                ctx.cap_hit("three dead-man expiries: the remaining cases were not run (see the violations / machinery notes for the traces)");
+            }
             report(ctx, prop, idx, &case, &obs, &verdict, &tally, &states, &behaviours);
         },
     );
@@ -1671,7 +1979,14 @@ pub(super) fn report(
     let text = obs_text(case, obs);
     ctx.distinct(common::hash_of(&text));
     // behaviours: the same observation without the script letters and the configuration
-    let behaviour: String = text.split(" => ").nth(1).unwrap_or("").split(" | ").map(|s| s.get(2..).unwrap_or("")).collect::<Vec<_>>().join("|");
+    let behaviour: String = text
+        .split(" => ")
+        .nth(1)
+        .unwrap_or("")
+        .split(" | ")
+        .map(|s| s.split_once(':').map(|x| x.1).unwrap_or(""))
+        .collect::<Vec<_>>()
+        .join("|");
     behaviours.lock().unwrap().insert(common::hash_of(&behaviour));
     if idx % 4093 == 17 {
         ctx.sample(text.clone());
@@ -1682,10 +1997,10 @@ pub(super) fn report(
             *t.entry(format!("reached.{k}")).or_insert(0) += n;
         }
         *t.entry("polls_on_the_wire".to_string()).or_insert(0) += obs.steps.iter().filter(|s| s.req.is_some()).count() as u64;
-        *t.entry("answers_sent".to_string()).or_insert(0) += obs.steps.iter().map(|s| s.sent.len() as u64).sum::<u64>();
-        *t.entry("sentinels".to_string()).or_insert(0) += obs.steps.iter().filter(|s| s.req.is_some()).count() as u64;
+        *t.entry("datagrams_sent_to_the_task".to_string()).or_insert(0) +=
+            obs.steps.iter().map(|s| s.sent.iter().filter(|x| x.via != 9).count() as u64).sum::<u64>();
         for f in &verdict.findings {
-            if f.prop != prop {
+            if f.prop != prop && f.prop != "*" {
                 *t.entry(format!("sibling_findings.{}", f.prop)).or_insert(0) += 1;
             }
         }
@@ -1703,8 +2018,8 @@ pub(super) fn report(
         }
     }
     for f in &verdict.findings {
-        if f.prop == prop {
-            ctx.violation(&f.class, format!("{} [{}]", f.what, text), case.trace());
+        if let Some(class) = Verdict::class_for(f, prop) {
+            ctx.violation(&class, format!("{} [{}]", f.what, text), case.trace());
         }
     }
 }
@@ -1713,7 +2028,7 @@ pub(super) fn report(
 /// says about it, return the canonical observation.
 pub(super) fn replay_case(ctx: &Ctx, prop: &'static str, trace: &str) -> String {
     let Some(case) = Case::parse(trace) else {
-        return format!("unparsable trace {trace:?} (want e.g. v4;4-10;kr;VNDR)");
+        return format!("unparsable trace {trace:?} (want e.g. v4;4-10;kr;V.N.DV.R)");
     };
     let mut w = match Worker::new() {
         Ok(w) => w,
@@ -1722,20 +2037,23 @@ pub(super) fn replay_case(ctx: &Ctx, prop: &'static str, trace: &str) -> String 
     let obs = w.run(&case);
     let verdict = judge(&case, &obs);
     for f in &verdict.findings {
-        if f.prop == prop {
-            ctx.violation(&f.class, f.what.clone(), case.trace());
+        if let Some(class) = Verdict::class_for(f, prop) {
+            ctx.violation(&class, f.what.clone(), case.trace());
         }
     }
     let mut text = obs_text(&case, &obs);
     for f in &verdict.findings {
         text.push_str(&format!(" ## {}", f.class));
     }
+    for m in &verdict.machinery {
+        text.push_str(&format!(" ## machinery: {m}"));
+    }
     text
 }
 
 pub(super) fn common_assumptions(ctx: &Ctx) {
-    ctx.assume("loopback UDP delivers datagrams to one socket in the order they were sent; the sentinel (a short datagram the task ignores but logs) therefore proves that every earlier datagram has been consumed by the task or dropped by the kernel");
-    ctx.assume("the task's tracing events 'wait completed', 'accept packet' and 'received packet is too small' exist (they delimit the steps; if they are removed the rig reports task-stuck, not a verdict about the property)");
+    ctx.assume("loopback UDP delivers datagrams to one socket in the order they were sent; the sentinels (short datagrams the task ignores but logs; one more than the foreign-peer datagrams since the last synchronisation point) therefore prove that every earlier datagram has been consumed by the task or dropped by the kernel");
+    ctx.assume("the task's tracing events 'wait completed' and 'accept packet' exist (they delimit the steps); 'received packet is too small' is used when present, a task that takes short datagrams without it is reported as such; a dead-man expiry is reported (task-stuck / machinery cap) and stops the exploration after three, it is never a verdict about the property and never a hang");
     ctx.assume("tokio's clock is paused: the duration handed to the poll timer is read as deadline - now exactly; the harness then advances virtual time by that duration before it fires the timer");
     ctx.assume("plain (non-NTS) sources only: SourceNtsData cannot be constructed from the ntpd crate without a real key exchange; NTS sources are covered at library level (ntp_proto c09, c13)");
     ctx.assume("the recording controller always desires the configured minimum poll interval; the real Kalman filter's desire is ntp_proto c10 part B");
@@ -1750,7 +2068,7 @@ fn replay(ctx: &Ctx, trace: &str) -> String {
 }
 
 pub(super) fn cfg(ver: Ver, min: i8, max: i8, ts: Ts) -> Cfg {
-    Cfg { ver, min, max, ts }
+    Cfg { ver, min, max, ts, des: min }
 }
 
 #[test]
@@ -1762,25 +2080,28 @@ fn check() {
         common::report_replay("C11", &a, &b, ctx.violation_count() > 0);
         return;
     }
-    ctx.rule("every script of exactly n poll reactions (shorter scripts are their prefixes: silence follows anyway) over the alphabet {N no answer, V valid, W valid twice, O wrong origin, D DENY, A valid from another address, L late valid} played by a scripted UDP server against the real SourceTask::run (fresh task per script), followed by silent polls until the task gives up; a case is distinct if its canonical observation (requests on the wire, timer class, measurements, published state, messages, end of task) differs");
+    ctx.rule("every script of exactly n polls (shorter scripts are their prefixes: silence follows anyway) in which the scripted UDP server reacts to each poll with any sequence of at most k datagrams, in every order, over {V valid (repeated = the same datagram again), O wrong origin, X the request reflected, D DENY, A valid from another address, 2 / 7 the first 2 / 47 bytes of a valid answer, T 5.5 s pass}, played against the real SourceTask::run (fresh task per script), followed by silent polls until the task gives up; a case is distinct if its canonical observation (requests on the wire, timer class, measurements, published state, messages, end of task) differs");
     common_assumptions(&ctx);
     let quick = ctx.quick();
-    // reachability needs depth more than breadth: a reduced alphabet, longer scripts
-    let alpha = vec![Sym::N, Sym::V, Sym::W, Sym::O, Sym::D, Sym::A, Sym::L];
     let mut plans = Vec::new();
-    let len = if quick { 5 } else { 7 };
-    for (c, l) in [
-        (cfg(Ver::V4, 4, 10, Ts::Kr), len),
-        (cfg(Ver::V4, 4, 4, Ts::Sw), len),
-        (cfg(Ver::V5, 4, 10, Ts::Kr), len - 1),
-        (cfg(Ver::Auto, 4, 10, Ts::Ka), len - 1),
-    ] {
-        plans.push(Plan { cfg: c, alphabet: alpha.iter().copied().filter(|s| s.applies(c.ver)).collect(), len: l });
+    // up to k datagrams per poll: a non-usable datagram before / after the valid answer
+    plans.push(plan(cfg(Ver::V4, 4, 10, Ts::Kr), "VODA2", 2, 3));
+    plans.push(plan(cfg(Ver::Auto, 4, 10, Ts::Ka), "VODX", 2, 3));
+    plans.push(plan(cfg(Ver::V5, 4, 10, Ts::Sw), "VOD7", 2, if quick { 2 } else { 3 }));
+    if !quick {
+        plans.push(plan(cfg(Ver::V4, 4, 10, Ts::Sw), "VODA", 3, 3));
+        plans.push(plan(cfg(Ver::V4, 4, 4, Ts::Ka), "VODA2", 2, 4));
     }
+    // one datagram per poll, longer scripts
+    let n = if quick { 5 } else { 7 };
+    plans.push(plan(cfg(Ver::V4, 4, 10, Ts::Kr), "VODAXT", 1, n));
+    plans.push(plan(cfg(Ver::V4, 4, 4, Ts::Sw), "VODA2T", 1, n));
+    plans.push(plan(cfg(Ver::V5, 4, 10, Ts::Kr), "VODAT", 1, n - 1));
+    plans.push(plan(cfg(Ver::Auto, 4, 10, Ts::Ka), "VODAT", 1, n - 1));
     // all answered/unanswered patterns, long enough for the eight-missed rule inside the script
-    plans.push(Plan { cfg: cfg(Ver::V4, 4, 10, Ts::Kr), alphabet: vec![Sym::N, Sym::V], len: if quick { 12 } else { 16 } });
-    plans.push(Plan { cfg: cfg(Ver::Auto, 4, 10, Ts::Kr), alphabet: vec![Sym::N, Sym::V, Sym::D], len: if quick { 7 } else { 10 } });
-    plans.push(Plan { cfg: cfg(Ver::V5, 4, 10, Ts::Sw), alphabet: vec![Sym::N, Sym::V, Sym::D], len: if quick { 7 } else { 10 } });
+    plans.push(plan(cfg(Ver::V4, 4, 10, Ts::Kr), "V", 1, if quick { 12 } else { 16 }));
+    plans.push(plan(cfg(Ver::Auto, 4, 10, Ts::Kr), "VD", 1, if quick { 7 } else { 10 }));
+    plans.push(plan(cfg(Ver::V5, 4, 10, Ts::Sw), "VD", 1, if quick { 7 } else { 10 }));
     explore(&ctx, "C11", &plans);
     ctx.finish();
 }
